@@ -180,7 +180,8 @@ fn generate_enum(
                 fn from(s: #ident) -> Self {
                     match s {
                         #(#match_arms,)*
-                        #ident ::_Custom(_s) => Self::_Custom(_s),
+                        // A type that is unknown to this enum can be known to `TimelineEventType`.
+                        #ident ::_Custom(_s) => ::std::convert::From::from(&*_s.0),
                     }
                 }
             }
